@@ -19,11 +19,7 @@ from hypergraph.events import AsyncEventProcessor  # noqa: E402
 from hypergraph.events.types import NodeStartEvent, RunStartEvent  # noqa: E402
 
 from .core import HarnessError  # noqa: E402
-from .observe import Outcome, _outcome  # noqa: E402
-
-
-class Deadlock(Exception):
-    pass
+from .observe import Deadlock, Outcome, _outcome  # noqa: E402
 
 
 class Sched:
